@@ -4,6 +4,7 @@ import (
 	"fmt"
 	"go/token"
 	"go/types"
+	"sort"
 	"strings"
 
 	"golang.org/x/tools/go/ssa"
@@ -129,9 +130,56 @@ func (e *Enc) noteTrusted(s string) {
 }
 
 func (e *Enc) callStatic(f *frame, fn *ssa.Function, args []Val, bind []Val, pos token.Pos, pack func([]Val) Val, freshResults func(string) Val) Val {
+	var after []CallAssert
+	if f.con != nil && len(f.con.CallAsserts) > 0 {
+		disp := e.L.funcName(fn)
+		n := f.ncallAll[disp]
+		for _, ca := range f.con.CallAsserts {
+			if ca.Callee == disp && ca.N == n && ca.After {
+				after = append(after, ca)
+			}
+		}
+	}
+	r := e.callStatic0(f, fn, args, bind, pos, pack, freshResults)
+	for _, ca := range after {
+		env := e.cellEnv(f, pos, e.cur)
+		tv := e.evalClauseVal(env, ca.Clause)
+		v, _ := e.materialize(env, tv, types.Typ[types.Uint64])
+		e.setVar("G|"+ca.Var, e.scalar(v, SBV64))
+		if e.dry == 0 {
+			f.assertsSeen[fmt.Sprintf("%s#%d", ca.Callee, ca.N)] = true
+		}
+	}
+	return r
+}
+
+func (e *Enc) callStatic0(f *frame, fn *ssa.Function, args []Val, bind []Val, pos token.Pos, pack func([]Val) Val, freshResults func(string) Val) Val {
 	name := fn.String()
 	if o := fn.Origin(); o != nil {
 		name = o.String()
+	}
+	if f.con != nil && len(f.con.CallAsserts) > 0 {
+		disp := e.L.funcName(fn)
+		n := f.ncallAll[disp]
+		f.ncallAll[disp]++
+		for _, ca := range f.con.CallAsserts {
+			if ca.Callee == disp && ca.N == n && !ca.After {
+				env := e.cellEnv(f, pos, e.cur.clone())
+				label := ca.Clause.Label
+				if label == "" {
+					label = "a"
+				}
+				n0 := len(e.obls)
+				e.oblige("pre", fmt.Sprintf("%s/at.%s#%d.%s", f.name, disp, n, label), e.evalBool(env, ca.Clause), pos)
+				if len(e.obls) > n0 {
+					e.obls[n0].Env = env
+					e.obls[n0].ClauseText = ca.Clause.Text
+				}
+				if e.dry == 0 {
+					f.assertsSeen[fmt.Sprintf("%s#%d", disp, n)] = true
+				}
+			}
+		}
 	}
 	if r, ok := e.intrinsic(f, fn, name, args, pos); ok {
 		return r
@@ -198,6 +246,23 @@ func (e *Enc) applyContract(f *frame, con *Contract, display string, args []Val,
 	env.st = old
 	if con.ModAll {
 		e.havocAll("modifies * of " + display)
+		// "modifies *" includes the ghost state (an unknown callee, in contrast, cannot touch it)
+		var gs []string
+		for g := range e.L.Contracts.GhostNames {
+			gs = append(gs, g)
+		}
+		for _, g := range []string{"last", "lastApp", "unpub", "uncap", "pend", "dirty", "curTxn", "inTxn", "ownTxn", "ownTxnRecorded"} {
+			if !e.L.Contracts.GhostNames[g] {
+				gs = append(gs, g)
+			}
+		}
+		sort.Strings(gs)
+		for _, g := range gs {
+			if strings.HasPrefix(g, "loc_") {
+				continue // ghost variables local to the calling function
+			}
+			e.setVar("G|"+g, e.freshT("hvg_"+g, SBV64))
+		}
 	} else {
 		for _, m := range con.Modifies {
 			e.havocLoc(env, m, con)
